@@ -91,7 +91,7 @@ class Poly(object):
     @staticmethod
     def fn(fname, *args):
         """Uninterpreted function application; args are Poly / numbers / hashables."""
-        kargs = tuple(a.key() if isinstance(a, Poly) else a for a in args)
+        kargs = tuple(pk(a) if isinstance(a, Poly) else a for a in args)
         return Poly({(sym_id(("fn", fname, kargs)),): 1})
 
     # ---------------------------------------------------------------- basics
@@ -265,10 +265,8 @@ class Poly(object):
             return self.__truediv__(other.const_value())
         if not self.terms:
             return self
-        if self.terms == other.terms:
-            # x / x: not simplified to 1 (x may be 0); keep opaque
-            pass
-        return Poly.fn("div", self, other)
+        # a / b  ==  a * recip(b): keeps the numerator polynomial (so signs and sums distribute)
+        return self * recip(other)
 
     def __rtruediv__(self, other):
         other = as_poly(other)
@@ -290,7 +288,7 @@ class Poly(object):
                 if s is not None:
                     k = sym_key(s)
                     if k[0] == "fn" and k[1] == "sqrt":
-                        return poly_from_key(k[2][0])
+                        return unpk(k[2][0])
             r = Poly.const(1)
             for _ in range(e):
                 r = r * self
@@ -328,6 +326,34 @@ class Poly(object):
         return " + ".join(parts)
 
 
+def canon_sign(p):
+    """(sign, q) with p == sign*q and q's leading coefficient positive (a canonical representative up to sign)."""
+    if not p.terms:
+        return 1, p
+    m = min(p.terms)
+    if p.terms[m] < 0:
+        return -1, -p
+    return 1, p
+
+
+def recip(p):
+    """1/p as an uninterpreted symbol with the odd symmetry recip(-p) = -recip(p) made canonical."""
+    if p.is_const():
+        c = p.const_value()
+        if c == 0:
+            return Poly.fn("recip", p)
+        return Poly.const(Fraction(1, 1) / c)
+    sgn, q = canon_sign(p)
+    r = Poly.fn("recip", q)
+    return -r if sgn < 0 else r
+
+
+def even_fn(name, p):
+    """f(p) for an even function f (abs, ...): canonical in the sign of its argument."""
+    sgn, q = canon_sign(p)
+    return Poly.fn(name, q)
+
+
 def _norm(c):
     if isinstance(c, Fraction) and c.denominator == 1:
         return int(c)
@@ -336,6 +362,19 @@ def _norm(c):
 
 def poly_from_key(k):
     return Poly(dict(k))
+
+
+def pk(p):
+    """Interned reference to a polynomial, used inside the argument lists of function symbols."""
+    return ("P", sym_id(("poly", as_poly(p).key())))
+
+
+def is_pk(a):
+    return isinstance(a, tuple) and len(a) == 2 and a[0] == "P" and isinstance(a[1], int)
+
+
+def unpk(a):
+    return poly_from_key(sym_key(a[1])[1])
 
 
 def as_poly(x):
@@ -355,13 +394,12 @@ def show_sym(i, depth=0):
             return "%s(...)" % k[1]
         args = []
         for a in k[2]:
-            if isinstance(a, tuple) and (not a or (isinstance(a[0], tuple) and len(a[0]) == 2 and isinstance(a[0][0], tuple))):
-                try:
-                    args.append(poly_from_key(a).show(3))
-                    continue
-                except Exception:
-                    pass
-            args.append(repr(a))
+            if is_pk(a):
+                args.append(unpk(a).show(3))
+            elif isinstance(a, tuple) and len(a) > 4:
+                args.append("<%d items>" % len(a))
+            else:
+                args.append(repr(a))
         return "%s(%s)" % (k[1], ", ".join(args))
     return repr(k)
 
@@ -396,9 +434,16 @@ def leaf_names(p):
                 walk_key(a)
 
     def walk_key(a):
+        if is_pk(a):
+            for m, _c in sym_key(a[1])[1]:
+                for z in m:
+                    walk_sym(z)
+            return
         if isinstance(a, tuple):
             for item in a:
-                if isinstance(item, tuple) and len(item) == 2 and isinstance(item[0], tuple) and all(isinstance(z, int) for z in item[0]):
+                if is_pk(item):
+                    walk_key(item)
+                elif isinstance(item, tuple) and len(item) == 2 and isinstance(item[0], tuple) and all(isinstance(z, int) for z in item[0]):
                     for z in item[0]:
                         walk_sym(z)
                 else:
@@ -428,9 +473,16 @@ def leaves_of(p):
                 walk_key(a)
 
     def walk_key(a):
+        if is_pk(a):
+            for m, _c in sym_key(a[1])[1]:
+                for z in m:
+                    walk_sym(z)
+            return
         if isinstance(a, tuple):
             for item in a:
-                if isinstance(item, tuple) and len(item) == 2 and isinstance(item[0], tuple) and all(isinstance(z, int) for z in item[0]):
+                if is_pk(item):
+                    walk_key(item)
+                elif isinstance(item, tuple) and len(item) == 2 and isinstance(item[0], tuple) and all(isinstance(z, int) for z in item[0]):
                     for z in item[0]:
                         walk_sym(z)
                 else:
